@@ -87,47 +87,190 @@ def childrenFirst (g : Graph) (out : List Nat) : Bool :=
 
 def nodup (l : List Nat) : Bool := l.eraseDups.length == l.length
 
+/-- `sort make|makepkg n=<n> edges=… roots=…` -/
+def parseMake (n e r : String) : Option Op := do
+  let n ← (← parseKV "n" n).toNat?
+  let es ← (← parseCsv (← parseKV "edges" e)).mapM parseEdge
+  let rs ← (← parseCsv (← parseKV "roots" r)).mapM String.toNat?
+  if es.all (fun (a, b) => a < n && b < n) && rs.all (· < n) then
+    pure { n := n, edges := es, roots := rs, limit := none }
+  else none
+
+/-- `<j|->` with `j ≥ 1` -/
+def parseLimit (l : String) : Option (Option Nat) :=
+  if l == "-" then some none
+  else match l.toNat? with
+    | some 0 => none
+    | some k => some (some k)
+    | none => none
+
+def reentrantMsg : String := "internal/toposort:_Sort()_called_reëntrantly"
+
+def showNest : NestResult → String
+  | .plain r => showResult r
+  | .reentrant out => s!"panic yielded={showList out} msg={reentrantMsg}"
+
+/-- a sequence returned by a `Sort` call: its graph and roots, and the Sorter it belongs to
+    (0 = the Sorter of the case, i > 0 = the private Sorter of the i-th package-level `Sort`) -/
+structure SeqRec where
+  op : Op
+  sorter : Nat
+
+/-- model state of a case: the Sorters' scratch spaces and the sequences made so far -/
+structure TSState where
+  sorters : List Sorter := [Sorter.fresh]
+  seqs : List SeqRec := []
+
+def TSState.sorter (st : TSState) (i : Nat) : Sorter := st.sorters.getD i Sorter.fresh
+
+def TSState.setSorter (st : TSState) (i : Nat) (s : Sorter) : TSState :=
+  { st with sorters := st.sorters.set i s }
+
 end TopoWire
 open TopoWire
 
-def toposortModel (line : String) : String :=
-  match parseOp line with
-  | some o => showResult (sort o.graph o.roots o.limit)
-  | none => "bad-op"
+/-- model step. `sort n=… limit=…` = Sort + one pass at once; `sort make …` = `s.Sort(…)` on the
+    case's Sorter without consuming; `sort makepkg …` = package-level `toposort.Sort(…)` (its own
+    Sorter); `sort range k j` = one pass over sequence `k` (break after `j` nodes unless `-`);
+    `sort nest k j k2` = a pass over `k` whose body at the j-th node ranges `k2` (same Sorter). -/
+def toposortStep (st : TSState) (line : String) : TSState × String :=
+  match words line with
+  | ["sort", "make", n, e, r] =>
+    match parseMake n e r with
+    | some o =>
+      let st := st.setSorter 0 (st.sorter 0).sortCall
+      ({ st with seqs := st.seqs ++ [{ op := o, sorter := 0 }] }, s!"seq {st.seqs.length}")
+    | none => (st, "bad-op")
+  | ["sort", "makepkg", n, e, r] =>
+    match parseMake n e r with
+    | some o =>
+      ({ sorters := st.sorters ++ [Sorter.fresh],
+         seqs := st.seqs ++ [{ op := o, sorter := st.sorters.length }] }, s!"seq {st.seqs.length}")
+    | none => (st, "bad-op")
+  | ["sort", "range", k, j] =>
+    match k.toNat?, parseLimit j with
+    | some k, some lim =>
+      match st.seqs[k]? with
+      | some sq =>
+        let (r, s') := (st.sorter sq.sorter).range sq.op.graph sq.op.roots lim
+        (st.setSorter sq.sorter s', showResult r)
+      | none => (st, "bad-op")
+    | _, _ => (st, "bad-op")
+  | ["sort", "nest", k, j, k2] =>
+    match k.toNat?, parseLimit j, k2.toNat? with
+    | some k, some (some j), some k2 =>
+      match st.seqs[k]?, st.seqs[k2]? with
+      | some sq, some sq2 =>
+        if sq.sorter == 0 && sq2.sorter == 0 then
+          let (r, s') := (st.sorter 0).nest sq.op.graph sq.op.roots j
+          (st.setSorter 0 s', showNest r)
+        else (st, "bad-op")
+      | _, _ => (st, "bad-op")
+    | _, _, _ => (st, "bad-op")
+  | _ =>
+    match parseOp line with
+    | some o =>
+      let (r, s') := (st.sorter 0).sortCall.range o.graph o.roots o.limit
+      (st.setSorter 0 s', showResult r)
+    | none => (st, "bad-op")
 
-/-- Property oracle (C41, first two sentences) on the implementation's answer: the sort must
-    terminate without panicking, yield exactly the nodes reachable from the roots, each once,
-    and — when no reachable node lies on a cycle — every node after all of its children.
-    With a consumer limit `k` the same is demanded of the first `k` yields. -/
-def toposortSpec (line ans : String) : String :=
-  match parseOp line with
-  | none => "skip"
-  | some o =>
-    let g := o.graph
-    let reach := closure g o.roots
-    let cyclic := reach.any (onCycle g)
-    match words ans with
-    | "panic" :: _ =>
-      if cyclic then "fails panicked-on-cyclic-input" else "fails panicked-on-dag"
-    | [kind, outs] =>
-      match parseOut outs with
+namespace TopoWire
+
+/-- the property on one pass over the sequence of `o` (with `o.limit` = the consumer's break) -/
+def judge (o : Op) (ans : String) : String :=
+  let g := o.graph
+  let reach := closure g o.roots
+  let cyclic := reach.any (onCycle g)
+  match words ans with
+  | "panic" :: _ =>
+    if cyclic then "fails panicked-on-cyclic-input" else "fails panicked-on-dag"
+  | [kind, outs] =>
+    match parseOut outs with
+    | none => "fails bad-answer"
+    | some out =>
+      if !nodup out then "fails node-yielded-twice"
+      else if !out.all reach.contains then "fails unreachable-node-yielded"
+      else if !cyclic && !childrenFirst g out then "fails node-before-its-child"
+      else if kind == "ok" then
+        if !reach.all out.contains then "fails reachable-node-missing"
+        else match o.limit with
+          | some k => if out.length < k then "holds" else "fails consumer-stop-ignored"
+          | none => "holds"
+      else if kind == "stopped" then
+        match o.limit with
+        | some k => if out.length == k then "holds" else "fails stopped-at-wrong-count"
+        | none => "fails stopped-without-limit"
+      else "fails bad-answer"
+  | _ => "fails bad-answer"
+
+/-- a nested pass: the specified outcome of ranging a second sequence of the same Sorter inside
+    the loop body is the re-entrancy panic, after exactly `j` correctly ordered nodes; if the
+    outer pass has fewer than `j` nodes it must complete like any other pass -/
+def judgeNest (o : Op) (j : Nat) (ans : String) : String :=
+  let g := o.graph
+  let reach := closure g o.roots
+  let cyclic := reach.any (onCycle g)
+  match words ans with
+  | ["panic", y, m] =>
+    if m == "msg=" ++ reentrantMsg then
+      match parseKV "yielded" y with
       | none => "fails bad-answer"
-      | some out =>
-        if !nodup out then "fails node-yielded-twice"
-        else if !out.all reach.contains then "fails unreachable-node-yielded"
-        else if !cyclic && !childrenFirst g out then "fails node-before-its-child"
-        else if kind == "ok" then
-          if !reach.all out.contains then "fails reachable-node-missing"
-          else match o.limit with
-            | some k => if out.length < k then "holds" else "fails consumer-stop-ignored"
-            | none => "holds"
-        else if kind == "stopped" then
-          match o.limit with
-          | some k => if out.length == k then "holds" else "fails stopped-at-wrong-count"
-          | none => "fails stopped-without-limit"
-        else "fails bad-answer"
-    | _ => "fails bad-answer"
+      | some ys =>
+        match parseOut ys with
+        | none => "fails bad-answer"
+        | some out =>
+          if !nodup out then "fails node-yielded-twice"
+          else if !out.all reach.contains then "fails unreachable-node-yielded"
+          else if !cyclic && !childrenFirst g out then "fails node-before-its-child"
+          else if out.length == j then "holds" else "fails reentrancy-panic-at-wrong-count"
+    else if cyclic then "fails panicked-on-cyclic-input" else "fails panicked-on-dag"
+  | ["ok", _] => judge { o with limit := some j } ans
+  | _ => "fails bad-answer"
 
-def toposort : Engine := Engine.pure toposortModel toposortSpec
+end TopoWire
+open TopoWire
+
+/-- Property oracle (C41, first two sentences) on the implementation's answer: a pass over a
+    sequence must terminate without panicking, yield exactly the nodes reachable from the roots
+    given at `Sort` time, each once, and — when no reachable node lies on a cycle — every node
+    after all of its children; with a consumer break after `k` nodes the same is demanded of the
+    first `k`. This holds for EVERY pass: a sequence is a function of its graph and roots only,
+    whatever other passes (complete, broken off, panicked; of this or other sequences) came
+    before. The oracle state is the list of sequences made so far. -/
+def toposortSpec (seqs : List SeqRec) (line ans : String) : List SeqRec × String :=
+  match words line with
+  | ["sort", "make", n, e, r] =>
+    match parseMake n e r with
+    | some o => (seqs ++ [{ op := o, sorter := 0 }],
+        if ans == s!"seq {seqs.length}" then "skip" else "fails bad-answer")
+    | none => (seqs, "skip")
+  | ["sort", "makepkg", n, e, r] =>
+    match parseMake n e r with
+    | some o => (seqs ++ [{ op := o, sorter := 1 }],
+        if ans == s!"seq {seqs.length}" then "skip" else "fails bad-answer")
+    | none => (seqs, "skip")
+  | ["sort", "range", k, j] =>
+    match k.toNat?, parseLimit j with
+    | some k, some lim =>
+      match seqs[k]? with
+      | some sq => (seqs, judge { sq.op with limit := lim } ans)
+      | none => (seqs, "skip")
+    | _, _ => (seqs, "skip")
+  | ["sort", "nest", k, j, k2] =>
+    match k.toNat?, parseLimit j, k2.toNat? with
+    | some k, some (some j), some k2 =>
+      match seqs[k]?, seqs[k2]? with
+      | some sq, some sq2 =>
+        if sq.sorter == 0 && sq2.sorter == 0 then (seqs, judgeNest sq.op j ans) else (seqs, "skip")
+      | _, _ => (seqs, "skip")
+    | _, _, _ => (seqs, "skip")
+  | _ =>
+    match parseOp line with
+    | some o => (seqs, judge o ans)
+    | none => (seqs, "skip")
+
+def toposort : Engine :=
+  { σ := TSState, init := {}, step := toposortStep,
+    τ := List SeqRec, specInit := [], spec := toposortSpec }
 
 end PCV.Engines
